@@ -1,0 +1,95 @@
+//go:build verif
+
+// Contracts for package elfexec, checked by /verif (pverif). This file contains
+// comments only; it is compiled (to nothing) only under the build tag "verif".
+
+package elfexec
+
+//@ spec func fakemap(start uint64, limit uint64, offset uint64) bool = start == 0 && offset == 0 && (limit == 0xffffffffffffffff || limit == 0)
+//@ spec func usermode(stext *uint64, start uint64) bool = stext == nil && start > 0 && start < 0x8000000000000000
+//@ spec func dynbase(seg *elf.ProgHeader, start uint64, offset uint64) uint64 = start - offset + seg.Off - seg.Vaddr
+
+// The four kernel heuristics of kernelBase, pinned as a case table.
+//@ spec func k1(seg *elf.ProgHeader, start uint64, offset uint64) bool = seg.Vaddr == start - offset
+//@ spec func k2(stext *uint64, start uint64, limit uint64) bool = start == 0 && limit != 0 && stext != nil
+//@ spec func k3(start uint64, limit uint64, offset uint64) bool = start >= 0x8000000000000000 && limit > start && (offset == 0 || offset == 0xc000000000000000 || offset == start)
+//@ spec func k3a(stext *uint64, start uint64) bool = stext != nil && start % 4096 == *stext % 4096
+//@ spec func k4(stext *uint64, start uint64) bool = start % 4096 != 0 && stext != nil && *stext % 4096 == start % 4096
+//@ spec func kmatch(seg *elf.ProgHeader, stext *uint64, start uint64, limit uint64, offset uint64) bool =
+//@     k1(seg, start, offset) || k2(stext, start, limit) || k3(start, limit, offset) || k4(stext, start)
+//@ spec func kbase(seg *elf.ProgHeader, stext *uint64, start uint64, limit uint64, offset uint64) uint64 =
+//@     ite(k1(seg, start, offset), offset,
+//@     ite(k2(stext, start, limit), start - *stext,
+//@     ite(k3(start, limit, offset), ite(k3a(stext, start), start - *stext, start - seg.Vaddr),
+//@     start - *stext)))
+
+//@ func kernelBase arith bv
+//@   requires loadSegment != nil
+//@   ensures match: result1 == kmatch(loadSegment, stextOffset, start, limit, offset)
+//@   ensures base: result1 ==> result0 == kbase(loadSegment, stextOffset, start, limit, offset)
+//@   ensures nomatch: !result1 ==> result0 == 0
+
+//@ func GetBase arith bv
+//@   requires fh != nil
+//@   ensures fake: fakemap(start, limit, offset) ==> result0 == 0 && result1 == nil
+//@   ensures exec_noseg: !fakemap(start, limit, offset) && fh.Type == elf.ET_EXEC && loadSegment == nil ==> result0 == 0 && result1 == nil
+//@   ensures exec_user: !fakemap(start, limit, offset) && fh.Type == elf.ET_EXEC && loadSegment != nil && usermode(stextOffset, start)
+//@       ==> result1 == nil && result0 == dynbase(loadSegment, start, offset)
+//@   ensures exec_kernel: !fakemap(start, limit, offset) && fh.Type == elf.ET_EXEC && loadSegment != nil && !usermode(stextOffset, start)
+//@       && kmatch(loadSegment, stextOffset, start, limit, offset)
+//@       ==> result1 == nil && result0 == kbase(loadSegment, stextOffset, start, limit, offset)
+//@   ensures exec_chromeos: !fakemap(start, limit, offset) && fh.Type == elf.ET_EXEC && loadSegment != nil && !usermode(stextOffset, start)
+//@       && !kmatch(loadSegment, stextOffset, start, limit, offset) && start == 0 && limit != 0 && stextOffset == nil
+//@       ==> result1 == nil && result0 == start - loadSegment.Vaddr
+//@   ensures exec_err: !fakemap(start, limit, offset) && fh.Type == elf.ET_EXEC && loadSegment != nil && !usermode(stextOffset, start)
+//@       && !kmatch(loadSegment, stextOffset, start, limit, offset) && !(start == 0 && limit != 0 && stextOffset == nil)
+//@       ==> result1 != nil
+//@   ensures rel: !fakemap(start, limit, offset) && fh.Type == elf.ET_REL
+//@       ==> (offset != 0 ==> result1 != nil) && (offset == 0 ==> result1 == nil && result0 == start)
+//@   ensures dyn_noseg: !fakemap(start, limit, offset) && fh.Type == elf.ET_DYN && loadSegment == nil ==> result1 == nil && result0 == start - offset
+//@   ensures dyn_kernel: !fakemap(start, limit, offset) && fh.Type == elf.ET_DYN && loadSegment != nil && kmatch(loadSegment, stextOffset, start, limit, offset)
+//@       ==> result1 == nil && result0 == kbase(loadSegment, stextOffset, start, limit, offset)
+//@   ensures dyn: !fakemap(start, limit, offset) && fh.Type == elf.ET_DYN && loadSegment != nil && !kmatch(loadSegment, stextOffset, start, limit, offset)
+//@       ==> result1 == nil && result0 == dynbase(loadSegment, start, offset)
+//@   ensures other: !fakemap(start, limit, offset) && fh.Type != elf.ET_EXEC && fh.Type != elf.ET_REL && fh.Type != elf.ET_DYN ==> result1 != nil
+
+//@ spec func hmatch(h *elf.ProgHeader, fo uint64) bool = fo >= h.Off && fo < h.Off + h.Memsz
+
+//@ func HeaderForFileOffset arith bv
+//@   requires forall i int :: 0 <= i && i < len(headers) ==> headers[i] != nil
+//@   ensures found: result1 == nil ==> exists i int :: 0 <= i && i < len(headers) && headers[i] == result0 && hmatch(result0, fileOffset)
+//@   ensures unique: result1 == nil ==> forall j int, k int :: 0 <= j && j < len(headers) && 0 <= k && k < len(headers)
+//@       && hmatch(headers[j], fileOffset) && hmatch(headers[k], fileOffset) ==> j == k
+//@   ensures err_nil: result1 != nil ==> result0 == nil
+//@   ensures none_err: (forall j int :: 0 <= j && j < len(headers) ==> !hmatch(headers[j], fileOffset)) ==> result1 != nil
+//@   ensures multi_err: (exists j int, k int :: 0 <= j && j < k && k < len(headers) && hmatch(headers[j], fileOffset) && hmatch(headers[k], fileOffset)) ==> result1 != nil
+//@   loop 1
+//@     invariant 0 <= $i && $i <= len(headers)
+//@     invariant ph == nil ==> forall j int :: 0 <= j && j < $i ==> !hmatch(headers[j], fileOffset)
+//@     invariant ph != nil ==> exists k int :: 0 <= k && k < $i && headers[k] == ph && hmatch(ph, fileOffset)
+//@         && forall j int :: 0 <= j && j < $i && j != k ==> !hmatch(headers[j], fileOffset)
+//@     decreases len(headers) - $i
+
+// Selection rule of ProgramHeadersForMapping for one header.
+//@ spec func phsel(p *elf.ProgHeader, mapOff uint64, mapSz uint64) bool =
+//@     p.Filesz != 0 && p.Type == elf.PT_LOAD && mapOff < p.Off + p.Memsz && p.Off < mapOff + mapSz
+//@     && !(mapOff < ite(p.Off > (p.Vaddr & 4095), p.Off - (p.Vaddr & 4095), 0))
+//@     && !(mapOff > p.Off && p.Off + p.Memsz < mapOff + 4096 && mapOff + mapSz >= p.Off + p.Memsz + 4096)
+
+//@ func ProgramHeadersForMapping arith bv
+//@   ensures sel: forall k int :: 0 <= k && k < len(result) ==>
+//@       0 <= index_in(phdrs, result[k]) && index_in(phdrs, result[k]) < len(phdrs)
+//@       && result[k] == elem_addr(phdrs, index_in(phdrs, result[k])) && phsel(result[k], mapOff, mapSz)
+//@   ensures order: forall k1 int, k2 int :: 0 <= k1 && k1 < k2 && k2 < len(result) ==> index_in(phdrs, result[k1]) < index_in(phdrs, result[k2])
+//@   ensures complete: forall i int :: 0 <= i && i < len(phdrs) && phsel(elem_addr(phdrs, i), mapOff, mapSz) ==>
+//@       exists k int :: 0 <= k && k < len(result) && result[k] == elem_addr(phdrs, i)
+//@   loop 1
+//@     invariant 0 <= $i && $i <= len(phdrs)
+//@     invariant forall k int :: 0 <= k && k < len(headers) ==>
+//@       0 <= index_in(phdrs, headers[k]) && index_in(phdrs, headers[k]) < $i
+//@       && headers[k] == elem_addr(phdrs, index_in(phdrs, headers[k]))
+//@     invariant forall k int :: 0 <= k && k < len(headers) ==> phsel(headers[k], mapOff, mapSz)
+//@     invariant forall k1 int, k2 int :: 0 <= k1 && k1 < k2 && k2 < len(headers) ==> index_in(phdrs, headers[k1]) < index_in(phdrs, headers[k2])
+//@     invariant forall i int :: 0 <= i && i < $i && phsel(elem_addr(phdrs, i), mapOff, mapSz) ==>
+//@       exists k int :: 0 <= k && k < len(headers) && headers[k] == elem_addr(phdrs, i)
+//@     decreases len(phdrs) - $i
